@@ -185,7 +185,10 @@ func (b *assignmentBuilder) structFieldAndStructGettersAndFields(
 			}
 		}
 
-		if c, ok := b.castNode(lhs.ExprType(), rhs); ok {
+		// A struct with a notation on one of its members is copied member by member.
+		memberWise := util.IsStructType(lhs.ExprType()) && util.IsStructType(rhs.ExprType()) && b.hasNotationBelow(lhs)
+
+		if c, ok := b.castNode(lhs.ExprType(), rhs); ok && !memberWise {
 			rhsExpr := c.AssignExpr()
 			logger.Printf("%v: assignment found: %v = %v", methodPosStr, lhsExpr, rhsExpr)
 			a = gmodel.SimpleField{LHS: lhsExpr, RHS: rhsExpr, Error: c.ReturnsError()}
@@ -272,6 +275,39 @@ func (b *assignmentBuilder) createWithConverter(lhs, rhs bmodel.Node, converter 
 
 	logger.Warnf("%v: no assignment for %v [%v]", posStr, lhsExpr, b.imports.TypeName(lhs.ExprType()))
 	return gmodel.NoMatchField{LHS: lhsExpr}, nil
+}
+
+// hasNotationBelow reports whether a :skip, :conv, :map or :literal notation addresses
+// a member, at any depth, of the given struct-typed destination field.
+func (b *assignmentBuilder) hasNotationBelow(lhs bmodel.Node) bool {
+	found := false
+	bmodel.IterateStructFields(lhs, func(member bmodel.Node) (done bool) {
+		expr := member.MatcherExpr()
+		found = b.opts.ShouldSkip(expr) || b.isExplicitTarget(expr) ||
+			(util.IsStructType(member.ExprType()) && b.hasNotationBelow(member))
+		return found
+	})
+	return found
+}
+
+// isExplicitTarget reports whether a :conv, :map or :literal notation names the destination expr.
+func (b *assignmentBuilder) isExplicitTarget(expr string) bool {
+	for _, c := range b.opts.Converters {
+		if c.Dst().Match(expr, true) {
+			return true
+		}
+	}
+	for _, m := range append(append([]*option.NameMatcher{}, b.opts.NameMapper...), b.opts.TemplatedNameMapper...) {
+		if m.Dst().Match(expr, true) {
+			return true
+		}
+	}
+	for _, l := range b.opts.Literals {
+		if l.Dst().Match(expr, true) {
+			return true
+		}
+	}
+	return false
 }
 
 // isAddressable reports whether the expression of the node can be the operand of "&".
